@@ -23,7 +23,7 @@ func (c16) Runs(tier string) int {
 	return 160
 }
 func (c16) Rule() string {
-	return "per run a template tree (layout, components, pages that succeed / fail at run time, optional custom error page, debug on/off, custom functions) is generated and loaded on the simulated disk; an operation alphabet {String, Response (healthy / failing writer), EvaluateString, EvaluateFile (present / missing / EIO)} x {succeeding, failing, unknown name} is derived from it. Every fourth run sweeps the ordered pairs of the alphabet (ALL of them in the thorough tier: exhaustive for length 2 on that tree; a seeded 22% sample in the quick tier), the others run seeded random histories of length 3..12 (one in ten followed by 40 repetitions of two operations). Oracle: each operation's observation equals the observation of the same operation issued first after a fresh reset + identical setup; caller data deep-equal to a private copy; after the history every page re-renders to its baseline. evaluations = operations executed inside histories. distinct_nontrivial = distinct histories (content hash) of length >= 2 that contain a failing operation or a string/file evaluation before a template render."
+	return "per run a template tree (layout, components, pages that succeed / fail at run time, optional custom error page, debug on/off, custom functions) is generated and loaded on the simulated disk; an operation alphabet {String, Response (healthy / failing writer), EvaluateString, EvaluateFile (present / missing / EIO)} x {succeeding, failing, unknown name} is derived from it. Every fourth run sweeps the ordered pairs of the alphabet (ALL of them in the thorough tier: exhaustive for length 2 on that tree; a seeded 12% sample in the quick tier), the others run seeded random histories of length 3..12 (one in ten followed by 40 repetitions of two operations). Oracle: each operation's observation equals the observation of the same operation issued first after a fresh reset + identical setup; caller data deep-equal to a private copy; after the history every page re-renders to its baseline. evaluations = operations executed inside histories. distinct_nontrivial = distinct histories (content hash) of length >= 2 that contain a failing operation or a string/file evaluation before a template render."
 }
 func (c16) Assumptions() []string {
 	return []string{
@@ -183,6 +183,22 @@ func treeAlphabet(r *Rng, t *Tree, extra []File) []Op {
 	for _, z := range [][3]Val{{VStr("A"), VStr("B"), VStr("C")}, {VNil(), VStr("B"), VStr("C")}, {VStr("A"), VNil(), VStr("C")}, {VStr("A"), VStr("B"), VNil()}} {
 		ops = append(ops, Op{Kind: "string", Name: "threeargs", Data: mk([]string{"pa", "pb", "pc"}, z[0], z[1], z[2])})
 	}
+	// a page of plain HTML and an argument-less component that reads the caller's variables, with two sets of values
+	ops = append(ops, Op{Kind: "string", Name: "inheritpage", Data: mk([]string{"n1", "s0"}, VInt(1), VStr("Ann"))},
+		Op{Kind: "string", Name: "inheritpage", Data: mk([]string{"n1", "s0"}, VInt(2), VStr("Bob"))},
+		Op{Kind: "string", Name: "inheritpage", Data: nil})
+	// one call site whose receiver type, and one branch whose being taken, depend on the data
+	ops = append(ops, Op{Kind: "string", Name: "polyfn", Data: mk([]string{"v", "flag"}, VInt(5), VBool(false))},
+		Op{Kind: "string", Name: "polyfn", Data: mk([]string{"v", "flag"}, VStr("abc"), VBool(false))},
+		Op{Kind: "string", Name: "polyfn", Data: mk([]string{"v", "flag"}, VStr("abc"), VBool(true))})
+	// near-miss function names, several of them on one receiver type
+	ops = append(ops, Op{Kind: "string", Name: "typo", Data: d}, Op{Kind: "evalstr", Src: "{{ s0.lenn() }}", Data: d},
+		Op{Kind: "evalstr", Src: "{{ s0.trimm() }}", Data: d}, Op{Kind: "evalstr", Src: "{{ n1.strr() }}", Data: d})
+	// an output well over 4 KiB, rendered more than once
+	ops = append(ops, Op{Kind: "string", Name: "bigpage", Data: d}, Op{Kind: "response", Name: "bigpage", Data: d})
+	// dot access where the data has the exact spelling AND the capitalised one, after data that has only the latter
+	ops = append(ops, Op{Kind: "string", Name: "dotpage", Data: mk([]string{"user"}, Val{T: "map", K: []string{"name", "Name", "age", "Age"}, V: []Val{VStr("low"), VStr("UP"), VInt(1), VInt(2)}})},
+		Op{Kind: "string", Name: "dotpage", Data: mk([]string{"user"}, Val{T: "map", K: []string{"Name", "Age"}, V: []Val{VStr("OnlyUp"), VInt(3)}})})
 	// data the conversion rejects (a reserved name), on two different pages and through the string API
 	bad := mk([]string{"n1", "loop"}, VInt(1), VInt(2))
 	ops = append(ops, Op{Kind: "string", Name: "dotpage", Data: bad}, Op{Kind: "string", Name: "rowpage", Data: bad},
@@ -250,6 +266,11 @@ func genC16Tree(r *Rng) (*Scenario, *Tree, []Op) {
 		File{Path: t.path("branchy"), Data: branchySrc, Role: "page"},
 		File{Path: t.path("components/three"), Data: "<i>[{{ alpha }}|{{ beta }}|{{ gamma }}]</i>", Role: "component"},
 		File{Path: t.path("threeargs"), Data: "@component(\"components/three\", {alpha: pa, beta: pb, gamma: pc})", Role: "page"},
+		File{Path: t.path("components/inherit"), Data: "<u>INH {{ n1 }}/{{ s0 }}</u>", Role: "component"},
+		File{Path: t.path("inheritpage"), Data: "<p>only html</p>\n@component(\"components/inherit\")\n<p>tail</p>", Role: "page"},
+		File{Path: t.path("polyfn"), Data: "<p>{{ v.upper() }}</p>@if(flag)@component(\"components/ratio\", {d: 4})@end", Role: "page"},
+		File{Path: t.path("typo"), Data: "<p>{{ s0.uper() }}</p>", Role: "page"},
+		File{Path: t.path("bigpage"), Data: "<ul>@for(i = 0; i < 220; i++)<li class=\"row\">item {{ i }} of {{ n1 }}</li>@end</ul>", Role: "page"},
 		File{Path: t.path("dynpage"), Data: "<p>{{ u.name }}</p>", Role: "page"},
 		File{Path: t.path("latepage"), Data: "<p>{{ s0.whisper(1) }}</p>", Role: "page"},
 		// one component used three times: without slots, with a slot whose body may fail, without again
@@ -524,8 +545,8 @@ func (p c16) Run(seed uint64, run int, tier string, acc *Acc) *Violation {
 		seen := map[string]bool{}
 		for _, a := range alpha {
 			for _, b := range alpha {
-				if tier != "thorough" && !r.Chance(22) {
-					continue // quick tier: a seeded ~22% sample of the ordered pairs; thorough: all of them
+				if tier != "thorough" && !r.Chance(12) {
+					continue // quick tier: a seeded ~12% sample of the ordered pairs; thorough: all of them
 				}
 				acc.Probe("pairs-executed", 1)
 				if v := check([]Op{a, b}); v != nil && !seen[v.Sig] {
